@@ -2,7 +2,7 @@
 for its while loop, and the lemma L-MARK (z3 step + paper induction)."""
 import z3
 
-from vfkit import core, model, paths, rewrite, sym, uniform
+from vfkit import bounded, core, model, paths, rewrite, sym, uniform
 from vfkit.check import Plan
 from vfkit.paths import SymPath, SymSet, P
 from vfkit.sym import EngineUnsupported, PathStop, S, SymBool, SymStr, ctx
@@ -353,6 +353,11 @@ def plan(tier, seed):
                     "luqum.visitor.PathTrackingTransformer.clone_children", "luqum.visitor.TreeTransformer.generic_visit"]
     pl.min_obligations = len(model.UNIVERSE) * 6
     pl.replay_builder = replay_builder
+    ntok = 3 if tier == "quick" else 5
+
+    def marking():
+        return bounded.run_native("c17_marking", {"max_tokens": ntok, "seed": seed, "known": bounded.known_for("C17", "C17-B")})
+    pl.bounded = [("C17-B/rendered-classes end to end (safety net for restructured marking code)", marking)]
     pl.assumptions = c01.ASSUMPTIONS
     pl.trusted_base = c01.TRUSTED
     pl.lemmas = ["L-MARK (paper + z3 step C17-L): printing is head + body + tail recursively (C01-T), so the tags of a "
